@@ -1013,6 +1013,34 @@ def r8_captures(ctx):
            expected='board.pieces(color.opposite()).get(target).map(Capture)', why='apply checks the recorded capture against what is really removed')
 
 
+def r9_position_invariants(ctx):
+    """The generator trusts the board: it offers castling whenever the right is still held and the squares are free, and an en-passant
+    capture whenever a target is set.  On positions reached by legal play that is sound only if making a move maintains "right held =>
+    king and rook on their home squares" and "target set => a pawn just stepped over it" - the effect tables of `apply` (the rule
+    instances of C03.R1-R3 / C12.R5).  A rights table that forgets a case (rook takes rook between home corners) makes the generator
+    offer a castle with a rook that is gone."""
+    from . import c03
+    sub = type(ctx)(ctx.prop, ctx.tier, ctx.facts, ctx.facts_info, ctx.seed)
+    R = c03.rights_consts(sub)
+    if R is not None:
+        c03.standard_rules(sub, R)
+        c03.r2_castle(sub, R)
+        c03.r3_en_passant(sub)
+    n = 0
+    for s in sub.samples:
+        inst = s['instance']
+        if 'rights' in inst or 'row(' in inst or 'ep target' in inst or 'floor' in inst or 'single bits' in inst or 'relocated' in inst:
+            n += 1
+            ctx.ob('C01.R9-position-invariants', s['function'], inst, s['ok'], found=s['found'], expected=s['expected'],
+                   why='castling and en passant are generated from the rights and the target the board holds: a right that survives the '
+                       'departure or capture of its rook, or a target that does not follow a double step, yields an illegal move',
+                   nontrivial='floor' not in inst)
+    ctx.floor('C01.R9-position-invariants', 'imported effect-table instances', n, 10)
+
+
+ALL_RULES = None        # filled below
+
+
 def run(ctx):
     r1_filter_dominance(ctx)
     r2_filter_shape(ctx)
@@ -1022,3 +1050,8 @@ def run(ctx):
     r5_attack_map(ctx)
     r7_promotions(ctx)
     r8_captures(ctx)
+    r9_position_invariants(ctx)
+
+
+ALL_RULES = [r1_filter_dominance, r2_filter_shape, r3_castle_guards, r4_pawn_geometry, r4b_pawn_captures, r5_attack_map, r7_promotions,
+             r8_captures, r9_position_invariants]
